@@ -62,7 +62,12 @@ pub fn builders(n: usize, text: &str) -> Vec<(String, Packet, Option<usize>)> {
     v.push(("Mso".into(), Mso { msg: t.clone(), ..Default::default() }.into(), None));
     v.push(("Mso+name".into(), Mso { msg: t.clone(), textstart: (t.chars().count().min(3)) as u8, ..Default::default() }.into(), None));
     v.push(("Ncn".into(), Ncn { uname: t.clone(), pname: t.clone(), ..Default::default() }.into(), None));
-    v.push(("Isi".into(), Isi { admin: t.clone(), iname: t, ..Default::default() }.into(), None));
+    v.push(("Isi".into(), Isi { admin: t.clone(), iname: t.clone(), ..Default::default() }.into(), None));
+    // IS_VER: a version whose printed form grows with the text length (revision of that many digits, up to what a usize
+    // holds), and a product text
+    let digits = t.chars().count().min(19);
+    let patch = if digits == 0 { None } else { Some((0..digits).fold(0usize, |a, i| a.wrapping_mul(10).wrapping_add(1 + i % 9))) };
+    v.push(("Ver".into(), Ver { version: insim::core::game_version::GameVersion { major: 0.7, minor: 'D', patch }, product: t, ..Default::default() }.into(), None));
     v
 }
 
